@@ -331,9 +331,30 @@ class NamespaceClass(Namespace[symtable.Class]):
             if name in comp.target_names:
                 return Name(id=name, ctx=Load())
 
-        if self.comp_stack and name in self.globals_used_in_comp:
-            # only inside the lambda / comprehension itself:
-            # the class body proper still sees its own member of that name
+        if self.comp_stack and name not in self.outer_nonlocal_map:
+            # The body of a lambda / comprehension written in the class body is
+            # a scope of its own, and a scope nested in a class does not see the
+            # class members (nor the global declarations of the class body):
+            # the name belongs to the nearest enclosing function that binds it,
+            # or it is a global.
+            outer = self.outer_nsp
+            while not isinstance(outer, NamespaceGlobal):
+                if isinstance(outer, NamespaceFunction):
+                    try:
+                        outer_symbol = outer.symt.lookup(name)
+                    except KeyError:
+                        outer_symbol = None
+                    if outer_symbol is not None and outer_symbol.is_local():
+                        if name in outer.inner_nonlocal_names:
+                            return Subscript(
+                                value=outer.nonlocal_dict_expr,
+                                slice=Constant(value=name),
+                                ctx=Load(),
+                            )
+                        return Name(id=name, ctx=Load())
+                    if outer_symbol is not None and outer_symbol.is_declared_global():
+                        break
+                outer = outer.outer_nsp
             if self._is_local_of_enclosing_function(name):
                 return self._load_global(name)
             return Name(id=name, ctx=Load())
